@@ -41,6 +41,11 @@ def tasks():
         # jobs without end_time
         scheduler.reject_job(None, Exception("killed"))
 
+    @scheduler_task(namespace="c33", name="interrupt")
+    def interrupt(scheduler, parent_job, expr):
+        # Ctrl-C reaching the event loop while jobs are in flight (the loop's own KeyboardInterrupt handler exits)
+        raise KeyboardInterrupt()
+
     @task(namespace="c33", name="after")
     def after(_first, spec):
         # evaluated only once `_first` has its value: what `spec` calls again is replayed from the recorded call node
@@ -58,11 +63,13 @@ def tasks():
         if kind == "seq":
             # a kill among the terms is the scheduler task itself (evaluated on the main thread right after the terms
             # before it were started), not a job of its own
-            return [kill() if s[0] == "kill" else node(s) for s in spec[1]]
+            return [kill() if s[0] == "kill" else interrupt() if s[0] == "interrupt" else node(s) for s in spec[1]]
         if kind == "catch":
             return catch(node(spec[1]), ValueError, rec)
         if kind == "kill":
             return kill()
+        if kind == "interrupt":
+            return interrupt()
         raise AssertionError(spec)
 
     _TASKS = node
@@ -86,8 +93,10 @@ def gen_spec(rng, depth):
     k = rng.random()
     if depth <= 0 or k < 0.25:
         return ("ok", rng.randint(0, 2)) if rng.random() < 0.55 else ("bad", rng.randint(0, 1))
-    if k < 0.30:
+    if k < 0.27:
         return ("kill",)
+    if k < 0.30:
+        return ("interrupt",)
     if k < 0.40:
         # a call that has finished is asked for again later (replayed from its call node), possibly while the
         # workflow is being stopped
@@ -113,6 +122,9 @@ COVER = [
     ("after", ("ok", 7), ("seq", [("ok", 7), ("kill",)])),
     ("after", ("seq", [("ok", 8)]), ("seq", [("seq", [("ok", 8)]), ("kill",)])),
     ("seq", [("ok", 3), ("bad", 0)]),
+    # Ctrl-C while jobs are in flight: whatever the interrupt handler records, filters and display must agree
+    ("seq", [("ok", 4), ("seq", [("ok", 5), ("interrupt",)])]),
+    ("after", ("ok", 6), ("seq", [("ok", 6), ("interrupt",)])),
     ("ok", 1),
     ("ok", 1),
 ]
@@ -154,7 +166,7 @@ def run_programs(programs):
             s.run(node(spec))
             outcomes.append("ok")
         except BaseException as e:  # noqa: the workflow's own error
-            if isinstance(e, (KeyboardInterrupt, SystemExit)):
+            if isinstance(e, KeyboardInterrupt) or (isinstance(e, SystemExit) and "interrupt" not in repr(spec)):
                 raise
             outcomes.append(type(e).__name__)
     return backend, outcomes
